@@ -175,11 +175,15 @@ impl Meta {
 pub struct AltSpec {
     pub syms: Vec<SymUse>,
     pub meta: Meta,
+    /// positions (0..=syms.len()) at which an explicit, redundant `EMPTY` is written; EMPTY
+    /// contributes nothing, so `A EMPTY B` is `A B` and `EMPTY EMPTY` is the empty alternative
+    #[serde(default)]
+    pub empties: Vec<u8>,
 }
 
 impl AltSpec {
     pub fn of(syms: Vec<Sym>) -> Self {
-        AltSpec { syms: syms.into_iter().map(SymUse::plain).collect(), meta: Meta::default() }
+        AltSpec { syms: syms.into_iter().map(SymUse::plain).collect(), meta: Meta::default(), empties: vec![] }
     }
 }
 
@@ -268,11 +272,19 @@ impl GrammarSpec {
     }
 
     pub fn render_alt(&self, a: &AltSpec) -> String {
-        let body = if a.syms.is_empty() {
-            "EMPTY".to_string()
-        } else {
-            a.syms.iter().map(|u| self.render_symuse(u)).collect::<Vec<_>>().join(" ")
-        };
+        let mut parts: Vec<String> = vec![];
+        for i in 0..=a.syms.len() {
+            for _ in a.empties.iter().filter(|e| (**e as usize).min(a.syms.len()) == i) {
+                parts.push("EMPTY".to_string());
+            }
+            if let Some(u) = a.syms.get(i) {
+                parts.push(self.render_symuse(u));
+            }
+        }
+        if parts.is_empty() {
+            parts.push("EMPTY".to_string());
+        }
+        let body = parts.join(" ");
         format!("{}{}", body, a.meta.render())
     }
 
